@@ -78,21 +78,22 @@ type sample struct {
 }
 
 type workerResult struct {
-	Prop      string               `json:"prop"`
-	Runs      int                  `json:"runs"`
-	Skipped   int                  `json:"skipped"`
-	Nontriv   int                  `json:"nontrivial"`
-	Faults    map[string]int       `json:"faults"`
-	Probes    map[string]int       `json:"probes"`
-	Ops       int                  `json:"ops"`
-	Steps     int                  `json:"steps"`
-	Checks    int                  `json:"checks"`
-	Shapes    []uint64             `json:"shapes"`
-	Samples   []sample             `json:"samples"`
-	KnownHits map[string]*knownHit `json:"known_hits"`
-	Violation *replayFile          `json:"violation,omitempty"`
-	LogHash   string               `json:"log_hash,omitempty"`
-	Extra     map[string]int       `json:"extra,omitempty"`
+	Prop       string               `json:"prop"`
+	Runs       int                  `json:"runs"`
+	Skipped    int                  `json:"skipped"`
+	Nontriv    int                  `json:"nontrivial"`
+	Faults     map[string]int       `json:"faults"`
+	Probes     map[string]int       `json:"probes"`
+	Ops        int                  `json:"ops"`
+	Steps      int                  `json:"steps"`
+	Checks     int                  `json:"checks"`
+	Shapes     []uint64             `json:"shapes"`
+	Samples    []sample             `json:"samples"`
+	KnownHits  map[string]*knownHit `json:"known_hits"`
+	Violation  *replayFile          `json:"violation,omitempty"`
+	LogHash    string               `json:"log_hash,omitempty"`
+	Extra      map[string]int       `json:"extra,omitempty"`
+	Enumerated int                  `json:"enumerated,omitempty"`
 }
 
 // ---- known findings
@@ -335,12 +336,12 @@ func fanOut(bin, dir, prop, tier string, seed uint64, total, nproc int, knownPat
 }
 
 type aggregate struct {
-	runs, skipped, nontriv, ops, steps, checks int
-	faults, probes, extra                     map[string]int
-	shapes                                    map[uint64]bool
-	samples                                   []sample
-	known                                     map[string]*knownHit
-	violation                                 *replayFile
+	runs, skipped, nontriv, ops, steps, checks, enumerated int
+	faults, probes, extra                                  map[string]int
+	shapes                                                 map[uint64]bool
+	samples                                                []sample
+	known                                                  map[string]*knownHit
+	violation                                              *replayFile
 }
 
 func aggregateResults(rs []*workerResult) aggregate {
@@ -355,6 +356,7 @@ func aggregateResults(rs []*workerResult) aggregate {
 		a.ops += r.Ops
 		a.steps += r.Steps
 		a.checks += r.Checks
+		a.enumerated += r.Enumerated
 		for k, v := range r.Faults {
 			a.faults[k] += v
 		}
